@@ -95,8 +95,17 @@ ScanResult Theo::scan(std::map<FileName, FileContent> files, FileName main) {
     }
     res.push_back(t);
   }
-  res.push_back(
-      Theo::Token{Theo::Token::T_EOF, "EOF", res.back().file, res.back().line});
+  if (res.empty()) {
+    // no token at all (missing or empty main file): there is no last token to
+    // take the position of the EOF token from
+    if (files.contains(main))
+      res.push_back(Theo::Token{Theo::Token::T_EOF, "EOF", main, 1});
+    else
+      res.push_back(Theo::Token{Theo::Token::T_EOF, "EOF", "-", -1});
+  } else {
+    res.push_back(Theo::Token{Theo::Token::T_EOF, "EOF", res.back().file,
+                              res.back().line});
+  }
   return {res, errors};
 }
 
